@@ -857,8 +857,21 @@ def call_ext(ev, dotted, args, kwargs, node):  # noqa: F811
 VALUE_ATTRS = {"shape", "ndim", "size", "T", "dtype", "values", "index", "columns", "loc", "iloc", "flat", "real"}
 
 
+SEQUENCE_OK = {"__getitem__", "__len__", "__iter__", "index", "count", "copy", "__class__"}
+
+
+def _raw_sequence_use(ev, v, what, node):
+    """A caller-supplied array-like (documented as list / tuple / ndarray) used through an ndarray-only attribute or method
+    before any numpy conversion: recorded as an event (a list argument raises AttributeError / TypeError here)."""
+    if isinstance(v, Sym) and "arraylike" in v.tags:
+        ev.event("raw_sequence_use", value=v, what=what, node=node)
+
+
 def value_attr(ev, v, name, node):
     from .evalr import BoundExt, Lst, Dct, FuncV, LambdaV
+
+    if name not in SEQUENCE_OK:
+        _raw_sequence_use(ev, v, "." + name, node)
 
     if isinstance(v, V) and name in VALUE_ATTRS:
         base = strip_fresh(v)
@@ -1175,6 +1188,8 @@ def getitem(ev, base, idx, node=None):
             pass
     base = as_v(ev, base)
     idx = as_v(ev, idx)
+    if isinstance(base, Sym) and "arraylike" in base.tags and isinstance(idx, (Tup, Vec)) and not isinstance(idx, Const):
+        _raw_sequence_use(ev, base, "[%s]" % idx.key[:30], node)
     # read through store chains
     b = base
     while isinstance(b, App) and b.fn == "store":
